@@ -447,10 +447,25 @@ struct runner
 
    void one_case( const unsigned char* bytes, const std::size_t n )
    {
-      char* buf = new char[ n ];            // exact size, no terminator
+      // no terminator.  Normal build: the unit is a window inside a larger buffer whose bytes behind the logical end are
+      // adversarial (UTF-8 continuation bytes, a low surrogate, letters), so that a decoder reading past the end through a
+      // raw pointer changes its answer; sanitizer build (__SANITIZE_ADDRESS__ / ASan feature): exact size, ASan sees the read.
+#if defined( __SANITIZE_ADDRESS__ )
+      static const char tailb[] = "";
+#elif defined( __has_feature )
+#if __has_feature( address_sanitizer )
+      static const char tailb[] = "";
+#else
+      static const char tailb[] = "\xbf\x80\xdc\x00\xbf\x80" "aA";
+#endif
+#else
+      static const char tailb[] = "\xbf\x80\xdc\x00\xbf\x80" "aA";
+#endif
+      char* buf = new char[ n + sizeof( tailb ) ];
       if( n > 0 ) {
          std::memcpy( buf, bytes, n );
       }
+      std::memcpy( buf + n, tailb, sizeof( tailb ) );
       ++dg.cases;
       if( verbose ) {
          const long oob0 = c10::oob_count();
